@@ -16,6 +16,8 @@ import (
 	"time"
 )
 
+var qlog = os.Getenv("VP_QLOG") != ""
+
 type Result int
 
 const (
@@ -30,6 +32,8 @@ func (r Result) String() string {
 
 type SolverStats struct {
 	Queries    int
+	Conjuncts      int
+	ConjunctsTotal int
 	Sat        int
 	UnsatN     int
 	UnknownN   int
@@ -46,7 +50,10 @@ type Solver struct {
 	cmd      *exec.Cmd
 	in       io.WriteCloser
 	out      *bufio.Reader
-	asserted []*Term
+	kind     string
+	conjVars map[int][]int
+	NoSlice  bool
+	dead     bool
 	decls    []string // every declaration/definition, in order (for one-shot scripts)
 	declared map[int]bool
 	vars     []*Term
@@ -60,7 +67,7 @@ type Solver struct {
 }
 
 func NewSolver(workDir string, seed int) (*Solver, error) {
-	s := &Solver{declared: map[int]bool{}, workDir: workDir, seed: seed}
+	s := &Solver{declared: map[int]bool{}, workDir: workDir, seed: seed, conjVars: map[int][]int{}}
 	if traceSMT {
 		s.trace = os.Stderr
 	}
@@ -71,8 +78,19 @@ func NewSolver(workDir string, seed int) (*Solver, error) {
 	return s, nil
 }
 
+var liveSolver = "z3"
+
 func (s *Solver) start() error {
+	s.kind = liveSolver
+	if v := os.Getenv("VP_LIVE"); v != "" {
+		s.kind = v
+	}
 	cmd := exec.Command("z3", "-in")
+	if s.kind == "cvc5" {
+		cmd = exec.Command("cvc5", "--incremental", "--lang", "smt2", "--produce-models", "--tlimit-per=20000")
+	} else if s.kind == "z3-new" {
+		cmd = exec.Command("z3-new", "-in")
+	}
 	in, err := cmd.StdinPipe()
 	if err != nil {
 		return err
@@ -86,12 +104,14 @@ func (s *Solver) start() error {
 		return err
 	}
 	s.cmd, s.in, s.out = cmd, in, bufio.NewReaderSize(out, 1<<16)
-	s.asserted = nil
 	s.timeout = -1
-	s.send("(set-option :global-declarations true)")
-	s.send("(set-option :produce-models true)")
-	s.send(fmt.Sprintf("(set-option :random-seed %d)", s.seed))
-	s.send(fmt.Sprintf("(set-option :smt.random_seed %d)", s.seed))
+	if s.kind == "cvc5" {
+		s.send("(set-logic ALL)")
+	} else {
+		s.send("(set-option :produce-models true)")
+		s.send(fmt.Sprintf("(set-option :random-seed %d)", s.seed))
+		s.send(fmt.Sprintf("(set-option :smt.random_seed %d)", s.seed))
+	}
 	// re-send declarations after a restart
 	for _, d := range s.decls {
 		s.send(d)
@@ -191,25 +211,83 @@ func pow2str(w int) string {
 	return "9223372036854775808"
 }
 
-// sync makes the solver's assertion stack equal to pc.
-func (s *Solver) sync(pc []*Term) {
-	n := 0
-	for n < len(pc) && n < len(s.asserted) && pc[n] == s.asserted[n] {
-		n++
+// varsOf returns the ids of the free variables of t (cached per term).
+func (s *Solver) varsOf(t *Term) []int {
+	if v, ok := s.conjVars[t.ID]; ok {
+		return v
 	}
-	if n < len(s.asserted) {
-		s.send(fmt.Sprintf("(pop %d)", len(s.asserted)-n))
-		s.asserted = s.asserted[:n]
+	seen := map[int]bool{}
+	var out []int
+	var walk func(x *Term)
+	walk = func(x *Term) {
+		if seen[x.ID] {
+			return
+		}
+		seen[x.ID] = true
+		if x.Op == OVar {
+			out = append(out, x.ID)
+			return
+		}
+		for _, a := range x.Args {
+			walk(a)
+		}
 	}
-	for _, c := range pc[n:] {
-		r := s.ref(c)
-		s.send("(push 1)")
-		s.send("(assert " + r + ")")
-		s.asserted = append(s.asserted, c)
+	walk(t)
+	s.conjVars[t.ID] = out
+	return out
+}
+
+// slice returns the conjuncts of pc that (transitively) share variables with
+// extra: constraint independence. The dropped conjuncts are over disjoint
+// variables and satisfiable on their own (the path condition is satisfiable
+// by construction), so they cannot change the answer.
+func (s *Solver) slice(pc []*Term, extra *Term) ([]*Term, map[int]bool) {
+	if extra == nil || s.NoSlice {
+		return pc, nil
 	}
+	rel := map[int]bool{}
+	for _, v := range s.varsOf(extra) {
+		rel[v] = true
+	}
+	sel := make([]bool, len(pc))
+	nsel := 0
+	for changed := true; changed; {
+		changed = false
+		for i, c := range pc {
+			if sel[i] {
+				continue
+			}
+			vs := s.varsOf(c)
+			hit := false
+			for _, v := range vs {
+				if rel[v] {
+					hit = true
+					break
+				}
+			}
+			if hit {
+				sel[i] = true
+				nsel++
+				changed = true
+				for _, v := range vs {
+					rel[v] = true
+				}
+			}
+		}
+	}
+	out := make([]*Term, 0, nsel)
+	for i, c := range pc {
+		if sel[i] {
+			out = append(out, c)
+		}
+	}
+	return out, rel
 }
 
 func (s *Solver) setTimeout(ms int) {
+	if s.kind == "cvc5" {
+		return
+	}
 	if ms != s.timeout {
 		s.timeout = ms
 		s.send(fmt.Sprintf("(set-option :timeout %d)", ms))
@@ -217,33 +295,79 @@ func (s *Solver) setTimeout(ms int) {
 }
 
 // Check decides pc ∧ extra. When the answer is sat and wantModel is set a
-// model over all declared variables is returned.
+// model over the variables of the relevant slice is returned (base, if given,
+// supplies the values of all other variables: it must satisfy pc).
 func (s *Solver) Check(pc []*Term, extra *Term, timeoutMs int, wantModel bool) (Result, Model) {
+	return s.CheckBase(pc, extra, timeoutMs, wantModel, nil)
+}
+
+func (s *Solver) CheckBase(pc []*Term, extra *Term, timeoutMs int, wantModel bool, base Model) (Result, Model) {
 	t0 := time.Now()
 	s.Stats.Queries++
 	s.sawError = false
-	s.sync(pc)
-	s.setTimeout(timeoutMs)
-	var r string
+	rel, relVars := s.slice(pc, extra)
+	if base == nil && extra != nil && len(rel) != len(pc) && wantModel {
+		// without a base model the answer model must cover the whole pc
+		rel, relVars = pc, nil
+	}
+	s.Stats.Conjuncts += len(rel)
+	s.Stats.ConjunctsTotal += len(pc)
+	refs := make([]string, 0, len(rel)+1)
+	for _, c := range rel {
+		refs = append(refs, s.ref(c))
+	}
 	if extra != nil {
-		r = s.ref(extra)
-		s.send("(push 1)")
+		refs = append(refs, s.ref(extra))
+	}
+	s.setTimeout(timeoutMs)
+	s.send("(push 1)")
+	for _, r := range refs {
 		s.send("(assert " + r + ")")
 	}
 	s.send("(check-sat)")
 	res := s.readResult()
 	var m Model
 	if res == Sat && wantModel {
-		m = s.getModel()
+		vars := s.vars
+		if relVars != nil {
+			vars = vars[:0:0]
+			for _, v := range s.vars {
+				if relVars[v.ID] {
+					vars = append(vars, v)
+				}
+			}
+		}
+		m = s.getModel(vars)
+		if m != nil && relVars != nil {
+			full := make(Model, len(base)+len(m))
+			for k, v := range base {
+				full[k] = v
+			}
+			for k, v := range m {
+				full[k] = v
+			}
+			m = full
+		}
 	}
-	if extra != nil {
+	if !s.dead {
 		s.send("(pop 1)")
 	}
+	s.dead = false
 	if s.sawError {
 		res = Unknown
 		m = nil
 	}
 	s.Stats.Seconds += time.Since(t0).Seconds()
+	if qlog {
+		sz := 0
+		for _, c := range rel {
+			sz += c.size
+		}
+		if extra != nil {
+			sz += extra.size
+		}
+		fmt.Fprintf(os.Stderr, "QLOG %.1fms res=%v conj=%d/%d size=%d\n", time.Since(t0).Seconds()*1000, res, len(rel), len(pc), sz)
+	}
 	switch res {
 	case Sat:
 		s.Stats.Sat++
@@ -266,6 +390,7 @@ func (s *Solver) readResult() Result {
 			if e := s.start(); e != nil {
 				panic(e)
 			}
+			s.dead = true
 			return Unknown
 		}
 		switch {
@@ -291,13 +416,13 @@ func (s *Solver) readResult() Result {
 	}
 }
 
-func (s *Solver) getModel() Model {
-	if len(s.vars) == 0 {
+func (s *Solver) getModel(vars []*Term) Model {
+	if len(vars) == 0 {
 		return Model{}
 	}
 	var sb strings.Builder
 	sb.WriteString("(get-value (")
-	for _, v := range s.vars {
+	for _, v := range vars {
 		sb.WriteString(smtSym(v.Name))
 		sb.WriteByte(' ')
 	}
@@ -339,7 +464,7 @@ func (s *Solver) getModel() Model {
 			break
 		}
 	}
-	m, err := parseModel(text.String(), s.vars)
+	m, err := parseModel(text.String(), vars)
 	if err != nil {
 		s.sawError = true
 		s.Stats.Errors = append(s.Stats.Errors, "model parse: "+err.Error())
@@ -530,6 +655,9 @@ type escOut struct {
 // definite answer wins. only restricts the back ends (nil = all).
 func (s *Solver) Escalate(pc []*Term, extra *Term, sec int, wantModel bool, only []string) (Result, Model, string) {
 	t0 := time.Now()
+	if !wantModel {
+		pc, _ = s.slice(pc, extra)
+	}
 	s.Stats.Escalated++
 	s.qseq++
 	ch := make(chan escOut, len(backends))
